@@ -344,7 +344,9 @@ def judge_with(clauses_of_interest):
         if len(out) != len(impl):
             return spec + (["rowcount_preserved"] if "rowcount_preserved" in clauses_of_interest else []), ["row count"], None
         for k, (m, im) in enumerate(zip(out, impl)):
-            if slack[k] < Fraction(1, 10 ** 9):
+            # knife-edge: the exact value is within 1e-9 of a rounding boundary -- or within 1e-13 of its own size
+            # (doubles carry 16 digits: at log2 near 30 the copy number is ~1e9 and float error alone exceeds 1e-9)
+            if slack[k] < Fraction(1, 10 ** 9) + (Fraction(abs(m[0]), 10 ** 13) if m[0] is not None else 0):
                 knife = "rounding boundary within 1e-9"
                 continue
             if m[0] != im[0] or m[2] != im[2] or m[3] != im[3]:
